@@ -12,7 +12,13 @@ minimum, pixel index `trunc (round₆ q)`, `searchsorted` of event times in the 
 per-line placement (four direction cases, flip, end alignment), squeeze.
 
 Specification: `render` writes the log and the continuous signal of a rastered acquisition
-(eight scan patterns, gaps, several patterns) and `truth` is the ground-truth image.
+(eight scan patterns, gaps, several patterns) and `truthImage` is the ground-truth image.  The
+acquisition is laid out explicitly: one `LineRec` per line carrying the laser clock at which its gap
+begins (`layLines`, `layPatterns`), log rows and samples are `flatMap`s over these records, and the
+index of a line's first pixel sample is a prefix sum (`lineStarts`).  `truthHyp` is the decidable
+domain of the ground truth; `PewTheorems.C08.sync_render` proves `sync (render a) = truthImage a` on it.
+Spot sizes are formatted and parsed on character lists (`fmtDecL`, `parseDecL`, `splitX`) so that the
+round trip is provable for every value.
 -/
 namespace Pew.Sync
 
@@ -45,6 +51,13 @@ def selectRows (sel : Option (List Int)) (rows : List Row) : List Row :=
   | none => filled
   | some s => filled.filter (fun r => s.contains r.seq)
 
+/-- a logged pattern: a header row carrying the sequence number, then rows with a blank one -/
+structure Block where
+  hdr : Row
+  body : List Row
+
+def Block.rows (b : Block) : List Row := b.hdr :: b.body
+
 /-- `log[np.stack((start_idx, start_idx + 1), axis=1).flat]` reshaped to (-1, 2);
 `none` = IndexError (an `On` row that is the last row) -/
 def pairs : List Row → Option (List (Row × Row))
@@ -55,19 +68,37 @@ def pairs : List Row → Option (List (Row × Row))
 
 /-! ## spot size -/
 
-def parseDec (s : String) : Option Rat :=
-  match s.splitOn "." with
-  | [a] => a.toNat?.map (fun n => (n : Rat))
-  | [a, b] => do
-    let n ← a.toNat?
-    let m ← b.toNat?
+/-- value of a non-empty string of decimal digits -/
+def digitsVal (cs : List Char) : Option Nat :=
+  if cs.isEmpty then none
+  else if cs.all Char.isDigit then some (cs.foldl (fun n c => 10 * n + (c.toNat - '0'.toNat)) 0)
+  else none
+
+/-- `float(x)` for the decimal notations that occur in the log: `"40"`, `"1.1"` -/
+def parseDecL (cs : List Char) : Option Rat :=
+  match cs.dropWhile (· != '.') with
+  | [] => (digitsVal cs).map (fun n => (n : Rat))
+  | _ :: b => do
+    let n ← digitsVal (cs.takeWhile (· != '.'))
+    let m ← digitsVal b
     pure ((n : Rat) + (m : Rat) / ((10 ^ b.length : Nat) : Rat))
-  | _ => none
+
+def parseDec (s : String) : Option Rat := parseDecL s.toList
+
+/-- `x.split(" x ")` on characters -/
+def splitX : List Char → List (List Char)
+  | [] => [[]]
+  | ' ' :: 'x' :: ' ' :: rest => [] :: splitX rest
+  | c :: rest =>
+    match splitX rest with
+    | [] => [[c]]
+    | p :: ps => (c :: p) :: ps
 
 /-- `"a x b"` (square / rectangular) or `"a"` (circular, IVA style) -/
 def spotSize (s : String) : Option (List Rat) :=
-  if s.contains 'x' then (s.splitOn " x ").mapM parseDec
-  else (parseDec s).map (fun v => [v, v])
+  let cs := s.toList
+  if cs.contains 'x' then (splitX cs).mapM parseDecL
+  else (parseDecL cs).map (fun v => [v, v])
 
 /-! ## stage coordinate → pixel index -/
 
@@ -280,17 +311,23 @@ structure Acq where
   deriving Repr
 
 /-- four-decimal fixed point → shortest decimal string ("40", "1.1", "12.5", "0.0001") -/
-def fmtDec (u : Nat) : String :=
+def fmtDecL (u : Nat) : List Char :=
   let ip := u / 10000
   let fp := u % 10000
-  if fp = 0 then toString ip
+  if fp = 0 then Nat.toDigits 10 ip
   else
-    let digits := (toString (10000 + fp)).toList.drop 1   -- four digits with leading zeros
+    -- four digits with leading zeros, trailing zeros removed
+    let digits := [Nat.digitChar (fp / 1000), Nat.digitChar (fp / 100 % 10), Nat.digitChar (fp / 10 % 10),
+      Nat.digitChar (fp % 10)]
     let trimmed := (digits.reverse.dropWhile (· == '0')).reverse
-    toString ip ++ "." ++ String.ofList trimmed
+    Nat.toDigits 10 ip ++ '.' :: trimmed
 
-def Pattern.spotStr (p : Pattern) : String :=
-  if p.circular then fmtDec p.sxu else fmtDec p.sxu ++ " x " ++ fmtDec p.syu
+def fmtDec (u : Nat) : String := String.ofList (fmtDecL u)
+
+def Pattern.spotL (p : Pattern) : List Char :=
+  if p.circular then fmtDecL p.sxu else fmtDecL p.sxu ++ [' ', 'x', ' '] ++ fmtDecL p.syu
+
+def Pattern.spotStr (p : Pattern) : String := String.ofList p.spotL
 
 def Pattern.lineDir (p : Pattern) (i : Nat) : Dir :=
   if p.serp && i % 2 = 1 then p.dir.opposite else p.dir
@@ -320,51 +357,121 @@ structure Sample where
   cell : Option (Int × Int × Int)
   deriving Repr
 
-structure Emit where
-  clock : Nat := 0
-  rows : List Row := []
-  samples : List Sample := []
-  deriving Repr
-
+/-- `k` samples spread over the slot `[start, start + len)` ms, each at fraction `phase` of its share -/
 def slotSamples (phase : Rat) (start : Nat) (len : Nat) (k : Nat) (cell : Nat → Option (Int × Int × Int)) :
     List Sample :=
   (List.range k).map (fun (j : Nat) =>
     { t := (start : Rat) + ((j : Rat) + phase) * ((len : Rat) / (k : Rat)), cell := cell j })
 
-def emitLine (phase : Rat) (p : Pattern) (e : Emit) (il : Nat × LineSpec) : Emit :=
-  let i := il.1
-  let ln := il.2
-  let on := e.clock + ln.gap
-  let off := on + p.npix * p.dwell
-  let ends := p.lineEnds i
-  let spot := p.spotStr
-  -- stage moves to outside the raster, logged with time stamps around the line like the real logs
-  let horiz := (p.lineDir i == .lr) || (p.lineDir i == .rl)
+/-! ### layout: one record per line, the laser clock threaded explicitly -/
+
+/-- line `i` of pattern `p`; `clock` is the laser clock (ms) when the laser-off gap before the line
+begins -/
+structure LineRec where
+  p : Pattern
+  i : Nat
+  ln : LineSpec
+  clock : Nat
+  deriving Repr
+
+namespace LineRec
+
+/-- laser clock of the `On` row -/
+def on (l : LineRec) : Nat := l.clock + l.ln.gap
+
+/-- laser clock of the `Off` row -/
+def off (l : LineRec) : Nat := l.on + l.p.npix * l.p.dwell
+
+/-- samples recorded during the gap before the line -/
+def gapCount (l : LineRec) : Nat := if l.ln.gap = 0 then 0 else l.ln.gapSamples
+
+def onRow (l : LineRec) : Row :=
+  { time := l.on, seq := -1, x := (l.p.lineEnds l.i).1.1, y := (l.p.lineEnds l.i).1.2, on := true, spot := l.p.spotStr }
+
+def offRow (l : LineRec) : Row :=
+  { time := l.off, seq := -1, x := (l.p.lineEnds l.i).2.1, y := (l.p.lineEnds l.i).2.2, on := false, spot := l.p.spotStr }
+
+/-- stage moves to outside the raster, logged with time stamps around the line like the real logs -/
+def moveRows (l : LineRec) : List Row :=
+  let p := l.p
+  let ends := p.lineEnds l.i
+  let horiz := (p.lineDir l.i == .lr) || (p.lineDir l.i == .rl)
   let out1 : Int × Int := if horiz then (p.X - (7 * p.sxu + 1234 : Nat), ends.1.2)
                           else (ends.1.1, p.Y - (7 * p.syu + 1234 : Nat))
   let out2 : Int × Int := if horiz then (p.X + ((p.npix + 7) * p.sxu + 4321 : Nat), ends.1.2)
                           else (ends.1.1, p.Y + ((p.npix + 7) * p.syu + 4321 : Nat))
-  let mv1 : Row := { time := (on : Int) - 1, seq := -1, x := out1.1, y := out1.2, on := false, spot := spot }
-  let mv2 : Row := { time := (off : Int) + 1, seq := -1, x := out2.1, y := out2.2, on := false, spot := spot }
-  let moves := if ln.moves = 0 then [] else if ln.moves = 1 then [mv1] else [mv1, mv2]
-  let onRow : Row := { time := on, seq := -1, x := ends.1.1, y := ends.1.2, on := true, spot := spot }
-  let offRow : Row := { time := off, seq := -1, x := ends.2.1, y := ends.2.2, on := false, spot := spot }
-  let gapS := if ln.gap = 0 then [] else slotSamples phase e.clock ln.gap ln.gapSamples (fun _ => none)
-  let pixS := slotSamples phase on (p.npix * p.dwell) p.npix
-    (fun j => let c := p.stepCell i j; some (p.seq, c.1, c.2))
-  { clock := off, rows := e.rows ++ moves ++ [onRow, offRow], samples := e.samples ++ gapS ++ pixS }
+  let mv1 : Row := { time := (l.on : Int) - 1, seq := -1, x := out1.1, y := out1.2, on := false, spot := p.spotStr }
+  let mv2 : Row := { time := (l.off : Int) + 1, seq := -1, x := out2.1, y := out2.2, on := false, spot := p.spotStr }
+  if l.ln.moves = 0 then [] else if l.ln.moves = 1 then [mv1] else [mv1, mv2]
 
-def emitPattern (phase : Rat) (e : Emit) (p : Pattern) : Emit :=
-  let start := (p.lineEnds 0).1
-  let hdr : Row := { time := e.clock, seq := p.seq, x := start.1, y := start.2, on := false, spot := p.spotStr }
-  let hdr2 : Row := { hdr with seq := -1 }
-  let e1 : Emit := { e with rows := e.rows ++ [hdr, hdr2] }
-  (List.zip (List.range p.lines.length) p.lines).foldl (emitLine phase p) e1
+/-- the log rows of the line: stage moves, `On`, `Off` -/
+def rows (l : LineRec) : List Row := l.moveRows ++ [l.onRow, l.offRow]
+
+/-- laser-off samples of the gap, strictly inside `(clock, on)` -/
+def gapS (phase : Rat) (l : LineRec) : List Sample :=
+  slotSamples phase l.clock l.ln.gap l.gapCount (fun _ => none)
+
+/-- one sample per pixel, strictly inside its dwell slot -/
+def pixS (phase : Rat) (l : LineRec) : List Sample :=
+  slotSamples phase l.on (l.p.npix * l.p.dwell) l.p.npix
+    (fun j => let c := l.p.stepCell l.i j; some (l.p.seq, c.1, c.2))
+
+def samples (phase : Rat) (l : LineRec) : List Sample := l.gapS phase ++ l.pixS phase
+
+end LineRec
+
+/-- the lines `i, i+1, …` of pattern `p` laid out from laser clock `c` -/
+def layLines (p : Pattern) : Nat → Nat → List LineSpec → List LineRec
+  | _, _, [] => []
+  | i, c, ln :: rest =>
+    let l : LineRec := { p := p, i := i, ln := ln, clock := c }
+    l :: layLines p (i + 1) l.off rest
+
+/-- laser clock after the lines -/
+def linesEnd (p : Pattern) : Nat → List LineSpec → Nat
+  | c, [] => c
+  | c, ln :: rest => linesEnd p (c + ln.gap + p.npix * p.dwell) rest
+
+/-- a logged pattern: its header rows are written at laser clock `clock` -/
+structure PatRec where
+  p : Pattern
+  clock : Nat
+  lines : List LineRec
+  deriving Repr
+
+def PatRec.hdr (b : PatRec) : Row :=
+  { time := b.clock, seq := b.p.seq, x := (b.p.lineEnds 0).1.1, y := (b.p.lineEnds 0).1.2, on := false,
+    spot := b.p.spotStr }
+
+/-- header row carrying the sequence number, a second row with the column blank, then the lines -/
+def PatRec.rows (b : PatRec) : List Row :=
+  b.hdr :: { b.hdr with seq := -1 } :: b.lines.flatMap LineRec.rows
+
+def layPatterns : Nat → List Pattern → List PatRec
+  | _, [] => []
+  | c, p :: ps => { p := p, clock := c, lines := layLines p 0 c p.lines } :: layPatterns (linesEnd p c p.lines) ps
+
+def patsEnd : Nat → List Pattern → Nat
+  | c, [] => c
+  | c, p :: ps => patsEnd (linesEnd p c p.lines) ps
+
+def Acq.recs (a : Acq) : List PatRec := layPatterns 0 a.patterns
+
+/-- all lines of the acquisition in the order of recording -/
+def Acq.lines (a : Acq) : List LineRec := a.recs.flatMap (·.lines)
+
+/-- laser-off samples after the last line -/
+def Acq.tailS (a : Acq) : List Sample :=
+  if a.tailGap = 0 then [] else slotSamples a.phase (patsEnd 0 a.patterns) a.tailGap a.tailSamples (fun _ => none)
+
+structure Emit where
+  rows : List Row := []
+  samples : List Sample := []
+  deriving Repr
 
 def emitAll (a : Acq) : Emit :=
-  let e := a.patterns.foldl (emitPattern a.phase) {}
-  let tail := if a.tailGap = 0 then [] else slotSamples a.phase e.clock a.tailGap a.tailSamples (fun _ => none)
-  { e with samples := e.samples ++ tail }
+  { rows := a.recs.flatMap PatRec.rows
+    samples := a.lines.flatMap (LineRec.samples a.phase) ++ a.tailS }
 
 def isSelected (sel : Option (List Int)) (s : Int) : Bool :=
   match sel with
@@ -414,38 +521,56 @@ def truthCells (a : Acq) (sel : Option (List Int)) : List (Int × Int × Nat) :=
       | some (s, x, y) =>
         if isSelected sel s then some ((y - o.2) / (p0.syu : Int), (x - o.1) / (p0.sxu : Int), ks.1) else none)
 
-/-- the inputs for which the ground truth is defined by the property's text: every selected
-pattern has the spot size of the first one and sits on the common pixel grid, and every line of a
-selected pattern is recorded completely, not at all, or from some pixel on to its end (a signal
-that starts late, i.e. a positive delay) -/
+/-- the patterns that are imported, as laid-out records -/
+def selRecs (a : Acq) (sel : Option (List Int)) : List PatRec :=
+  a.recs.filter (fun b => isSelected sel b.p.seq)
+
+/-- the lines that are imported, in the order of recording -/
+def selLines (a : Acq) (sel : Option (List Int)) : List LineRec := (selRecs a sel).flatMap (·.lines)
+
+/-- `On`/`Off` rows of a line as they appear after selection (labelled with the pattern's number) -/
+def LineRec.pair (l : LineRec) : Row × Row := (setSeq l.onRow l.p.seq, setSeq l.offRow l.p.seq)
+
+/-- ground-truth pixel (row, column) of travel step `j` of a line, `p0` the first selected pattern -/
+def truthPixel (a : Acq) (sel : Option (List Int)) (p0 : Pattern) (l : LineRec) (j : Nat) : Int × Int :=
+  (((l.p.stepCell l.i j).2 - (truthOrigin a sel).2) / (p0.syu : Int),
+   ((l.p.stepCell l.i j).1 - (truthOrigin a sel).1) / (p0.sxu : Int))
+
+/-- the lines with the index (in the acquisition's sample list) of the sample of their first pixel:
+prefix sums of the gap and pixel sample counts -/
+def lineStarts : Nat → List LineRec → List (LineRec × Nat)
+  | _, [] => []
+  | s, l :: rest => (l, s + l.gapCount) :: lineStarts (s + l.gapCount + l.p.npix) rest
+
+/-- line `l`, whose pixel samples are `P .. P + npix`, is recorded from some pixel on to its end, or
+not at all -/
+def lineRecorded (a : Acq) (l : LineRec) (P : Nat) : Bool :=
+  (decide (a.skip ≤ P + l.p.npix - 1) && decide (P + l.p.npix - 1 < a.skip + a.take)) ||
+  (decide (P + l.p.npix ≤ a.skip) || decide (a.skip + a.take ≤ P))
+
+/-- the inputs for which the ground truth is defined by the property's text: the samples sit strictly
+inside their dwell / gap slots, the log numbers its patterns with non-negative non-decreasing
+sequence numbers, every selected pattern has the spot size of the first one and sits on the common
+pixel grid, every line of a selected pattern is recorded completely, not at all, or from some pixel
+on to its end (a signal that starts late, i.e. a positive delay), and no pixel is visited twice by
+the recorded lines of the selection -/
 def truthHyp (a : Acq) (sel : Option (List Int)) : Bool :=
   let ps := selectedPatterns a sel
   let o := truthOrigin a sel
   match ps.head? with
   | none => false
   | some p0 =>
-    decide (0 < p0.sxu) && decide (0 < p0.syu) &&
+    decide (0 < a.phase) && decide (a.phase < 1) &&
+    a.patterns.all (fun p => decide (0 ≤ p.seq) && decide (0 < p.dwell)) &&
+    decide ((a.patterns.map (·.seq)).Pairwise (· ≤ ·)) &&
+    decide (0 < p0.sxu) && decide (0 < p0.syu) && (!p0.circular || p0.sxu == p0.syu) &&
     ps.all (fun p => p.sxu == p0.sxu && p.syu == p0.syu && p.circular == p0.circular &&
       decide ((p.X - o.1) % (p0.sxu : Int) = 0) && decide ((p.Y - o.2) % (p0.syu : Int) = 0) &&
-      decide (0 < p.npix) && decide (0 < p.dwell) && !p.lines.isEmpty) &&
-    -- complete or absent lines: count the recorded samples per (pattern, line)
-    (let all := (emitAll a).samples
-     let idx := List.range all.length
-     let inSig := fun (k : Nat) => decide (a.skip ≤ k) && decide (k < a.skip + a.take)
-     -- line boundaries: a maximal run of laser-on samples of one pattern row/column
-     let on := (List.zip idx all).filter (fun ks => ks.2.cell.isSome)
-     let lineKey := fun (s : Sample) (horizKey : Bool) =>
-       match s.cell with
-       | some (q, x, y) => (q, if horizKey then y else x)
-       | none => (0, 0)
-     ps.all (fun p =>
-       let horiz := (p.dir == .lr) || (p.dir == .rl)
-       let mine := on.filter (fun ks => (lineKey ks.2 horiz).1 == p.seq)
-       let keys := (mine.map (fun ks => (lineKey ks.2 horiz).2)).eraseDups
-       keys.all (fun k =>
-         let l := mine.filter (fun ks => (lineKey ks.2 horiz).2 == k)
-         ((l.getLast?.map (fun ks => inSig ks.1)).getD true) || l.all (fun ks => !inSig ks.1)))) &&
-    decide (0 < a.take) && decide (a.skip + a.take ≤ (emitAll a).samples.length)
+      decide (0 < p.npix) && !p.lines.isEmpty) &&
+    -- complete or absent lines
+    (lineStarts 0 a.lines).all (fun lP => !isSelected sel lP.1.p.seq || lineRecorded a lP.1 lP.2) &&
+    decide (0 < a.take) && decide (a.skip + a.take ≤ (emitAll a).samples.length) &&
+    decide (((truthCells a sel).map (fun e => (e.1, e.2.1))).Nodup)
 
 /-- ground-truth image of the given size -/
 def truthImage (a : Acq) (sel : Option (List Int)) (h w : Nat) : List (List (Option Nat)) :=
